@@ -145,6 +145,8 @@ func corpusCheck(args []string) int {
 	s := newSummary("corpus")
 	files, _ := filepath.Glob(filepath.Join(dir, "*.json"))
 	sort.Strings(files)
+	var usedProg *bcl.Prog
+	var usedOut, usedLog *bytes.Buffer
 	for _, jf := range files {
 		var want corpusRec
 		b, _ := os.ReadFile(jf)
@@ -187,6 +189,34 @@ func corpusCheck(args []string) int {
 			if g1.Out != got.Out || g1.ErrCls != got.ErrCls || g1.Blocks != got.Blocks || g1.Binding != got.Binding || g1.Disasm != got.Disasm {
 				pan = "the file means something else when read one byte at a time"
 				return
+			}
+			// the same file loaded with the Load method into a Prog that already holds another program (the previous file of the
+			// corpus, or a parsed four-line source): nothing of the old program may survive
+			if usedProg == nil {
+				usedOut, usedLog = &bytes.Buffer{}, &bytes.Buffer{}
+				usedProg, _ = bcl.Parse([]byte("print 1\nprint 2\n\nprint 3 +\n  4\n"), "used", bcl.OptOutput(usedOut), bcl.OptLogger(usedLog))
+			}
+			if usedProg != nil {
+				if err := usedProg.Load(bytes.NewReader(file)); err != nil {
+					pan = "Load into a Prog that held another program: " + err.Error()
+					return
+				}
+				usedOut.Reset()
+				usedLog.Reset()
+				g2 := corpusRec{}
+				execRecord(usedProg, usedOut, usedLog, &g2)
+				if g2.Out != got.Out || g2.ErrCls != got.ErrCls || g2.Err != got.Err || g2.Blocks != got.Blocks || g2.Binding != got.Binding {
+					pan = fmt.Sprintf("the file means something else when loaded into a Prog that held another program before (error %q, alone %q)", g2.Err, got.Err)
+					return
+				}
+				if want.Origin == "compiler" {
+					var d bytes.Buffer
+					usedProg.Dump(&d)
+					if !bytes.Equal(d.Bytes(), file) {
+						pan = "a Prog that held another program before does not dump to the file it was loaded from"
+						return
+					}
+				}
 			}
 			// a recorded compiler dump must also be what the compiler writes today for the same source (format stability of new dumps)
 			if want.Origin == "compiler" {
